@@ -32,6 +32,16 @@ def run(ctx: core.Ctx):
             items.insert(j, ("raise", None if j % 2 else 1064))
             d.app_result("set", ncols=1, items=items)
         d.payload(("ping",))
+        # results larger than the write buffer (several automatic flushes), failing at the end / in the middle
+        for nrows, at in ((900, 900), (900, 450), (700, 0)):
+            d.payload(("query",))
+            items = [("row", 60)] * nrows
+            items.insert(at, ("raise", 1064))
+            d.app_result("set", ncols=1, items=items, asynchronous=(at % 2 == 1))
+            d.payload(("ping",))
+        d.payload(("prepare", 0)); d.payload(("execute", 0, False))
+        d.app_result("set", ncols=1, items=[("row", 60)] * 600 + [("raise", None)])
+        d.payload(("ping",))
         drivers.append(d); terms.append(ls.coq_term(d)); d.close()
     model = core.run_coq_terms(ctx, "c03t", HEADER, terms, shard=20)
     disagreements = []
